@@ -363,7 +363,7 @@ def layout_by_items(ctx):
     rule = 'C17.plain-print-layout-by-item-sequence'
     ctx.rule(rule, 'TerminalDevice._exec_print (interpreted from the source '
              'on the tag protocol gen_print_stmt emits) prints, for every '
-             'sequence of up to 3 items drawn from {"ab", "", a '
+             'sequence of up to 3 items drawn from {"ab", "", "a<TAB>b", a '
              '14-character string, comma, semicolon}, exactly: the strings '
              'in order, blanks up to the next multiple of 14 for each comma '
              '(also a trailing one), nothing for a semicolon, and CR LF '
@@ -371,7 +371,7 @@ def layout_by_items(ctx):
     sim = vmsim.VmSim(repo)
     vmsim.install_primitives(sim)
     c = sim.cell
-    alphabet = ['ab', '', 'x' * 14, 'y' * 17, 0, -3, ',', ';']
+    alphabet = ['ab', '', 'x' * 14, 'y' * 17, 'a\tb', 0, -3, ',', ';']
     f = repo.func('qvm.machine', 'TerminalDevice._exec_print')
     n = 0
     bad = None
